@@ -732,6 +732,11 @@ func c03GenTokenKeys(r *verifh.Rng) verifh.Section {
 		switch x := r.Intn(10); {
 		case x < 6:
 			ops = append(ops, fmt.Sprintf("allow %d %d %d", i, now, r.Pick(1, 1, 1, b, b+1, 0, r.Range(1, b+1))))
+		case x == 7:
+			// goroutines x calls over ALL instances of ALL keys at one instant: every key grants what ITS bucket holds
+			g := r.Pick(ninst, 2*ninst, r.Range(2, 12))
+			c := r.Pick(1, 2, 3)
+			ops = append(ops, fmt.Sprintf("kstorm %d %d %d %d", now, r.Pick(1, 1, 2, 0), g, c))
 		case x < 7:
 			// drain one key through all its instances; the other keys must not notice
 			for q := 0; q < b+1 && q < 12; q++ {
@@ -1513,6 +1518,39 @@ func c03TokenKeys(mr *miniredis.Miniredis, store *redis.Redis, cfg verifh.Cfg) (
 			k := c03KeyName(i % nkeys)
 			return fmt.Sprintf("%s a=%d %s %s", res, atomic.LoadUint32(&lims[i].redisAlive),
 				c03Dump(mr, "tok", "{"+k+"}.tokens"), c03Dump(mr, "ts", "{"+k+"}.ts"))
+		case "kstorm":
+			// g goroutines x c calls of (ns, n); goroutine j uses instance j % ninst; grants are counted per KEY
+			ns, n, g, c := verifh.Atoi64(op[1]), verifh.Atoi(op[2]), verifh.Atoi(op[3]), verifh.Atoi(op[4])
+			if g < 1 || c < 1 || g*c > 256 {
+				return "bad-op"
+			}
+			grants := make([]int64, nkeys)
+			var wg sync.WaitGroup
+			start := make(chan struct{})
+			for j := 0; j < g; j++ {
+				wg.Add(1)
+				go func(j int) {
+					defer wg.Done()
+					<-start
+					for q := 0; q < c; q++ {
+						if lims[j%ninst].AllowN(time.Unix(0, ns), n) {
+							atomic.AddInt64(&grants[(j%ninst)%nkeys], 1)
+						}
+					}
+				}(j)
+			}
+			close(start)
+			wg.Wait()
+			parts := make([]string, 0, 3*nkeys)
+			for q := 0; q < nkeys; q++ {
+				k := c03KeyName(q)
+				parts = append(parts, fmt.Sprintf("g%d=%d", q, grants[q]), c03Dump(mr, "tok", "{"+k+"}.tokens"), c03Dump(mr, "ts", "{"+k+"}.ts"))
+			}
+			alive := 0
+			for _, l := range lims {
+				alive += int(atomic.LoadUint32(&l.redisAlive))
+			}
+			return fmt.Sprintf("alive=%d %s", alive, strings.Join(parts, " "))
 		}
 		return "bad-op"
 	}, nil
